@@ -16,17 +16,18 @@ import layers
 from props import base, refdict
 
 SCOPE = {'set', 'add', 'get', 'getitem', 'contains', 'touch', 'incr', 'pop', 'delete', 'delitem', 'clear', 'evict',
-         'expire', 'len', 'iter', 'riter', 'stats', 'cull', 'volume'}
+         'expire', 'len', 'iter', 'riter', 'stats', 'cull', 'volume', 'read', 'reset', 'check', 'tbegin', 'tend', 'traise'}
 ROUTE_KEYS = [0, 1, -1, 2 ** 31, 2 ** 32 - 1, 2 ** 32, 2 ** 63 - 1, -2 ** 63, 2 ** 64, 1.0, 0.0, -0.0, 2.5, 1e300, float('inf'),
               '', 'a', 'abc', 'é', '\U0001F600', b'', b'a', b'\x00\xff', None, True, (1, 2), ('a', (1,)), frozenset([1])]
 
 
 def fan_history(rng, length):
-    h = gen.gen_history(rng, length, 'noblocks')
+    h = gen.gen_history(rng, length, rng.choice(['noblocks', 'noblocks', 'full']))
     h['cls'] = 'fanout'
     h['cfg']['shards'] = rng.choice([1, 2, 3, 8, 13])
     h['cfg']['disk'] = 'pickle'
     ops = []
+    depth = 0
     for op in h['ops']:
         if op['m'] not in SCOPE or op.get('read'):
             continue
@@ -34,6 +35,11 @@ def fan_history(rng, length):
             # numerically equal int/float keys are routed apart (known finding D11, probed separately)
             continue
         ops.append(op)
+        depth = depth + 1 if op['m'] == 'tbegin' else max(0, depth - 1) if op['m'] == 'tend' else \
+            max(0, depth - op.get('n', 1)) if op['m'] == 'traise' else depth
+        if rng.random() < 0.03 and depth == 0:
+            # (inside an open block the files awaiting the commit are, correctly, reported as unknown)
+            ops.append({'m': 'check', 'now': op['now']})
         if rng.random() < 0.15 and 'k' in op:
             ops.append({'m': 'route', 'now': op['now'], 'k': op['k']})
     h['ops'] = ops
@@ -93,6 +99,73 @@ def probe_d11():
         shutil.rmtree(d, ignore_errors=True)
 
 
+def aggregate_probe(seed):
+    """aggregates cover every shard exactly once: damage some shards behind the library's back and
+    compare FanoutCache.check / len / volume / iteration with the per-shard answers, in shard order"""
+    import random
+    import shutil
+    import tempfile
+    import diskcache
+    from props import c17
+    rng = random.Random(seed)
+    root = os.environ.get('VERIF_SCRATCH') or tempfile.gettempdir()
+    d = tempfile.mkdtemp(prefix='agg-', dir=root)
+    try:
+        n = rng.choice([2, 3, 5, 8])
+        fc = diskcache.FanoutCache(d, shards=n, disk_min_file_size=8, size_limit=n * 2 ** 20)
+        for i in range(rng.randint(n, 6 * n)):
+            fc.set(rng.choice([i, 'k%d' % i, (i,)]), rng.choice([i, b'b' * rng.randint(8, 40), 't' * rng.randint(8, 30)]),
+                   tag=rng.choice(['red', None]), expire=rng.choice([None, 1000]))
+        dirs = [os.path.join(d, '%03d' % i) for i in range(n)]
+        limits = [diskcache.Cache(x).size_limit for x in dirs]
+        if limits != [2 ** 20] * n:
+            return 'the size limit %d of a %d-shard cache is not divided evenly among the shards: %r' % (n * 2 ** 20, n, limits)
+        damaged = [i for i in range(n) if rng.random() < 0.5]
+        for i in damaged:
+            c17.damage(rng, dirs[i])
+
+        def norm(ws):
+            return [str(w.message).replace(d, '') for w in ws]
+        per = []
+        for x in dirs:
+            c = diskcache.Cache(x)
+            per.append((norm(c.check()), c.reset('count'), c.volume(), [k for k in c], [k for k in reversed(c)]))
+            c.close()
+        got = norm(fc.check())
+        want = [w for p in per for w in p[0]]
+        if got != want:
+            return 'FanoutCache.check() over %d shards (damaged: %r) reports %r, the shards one by one report %r' % (n, damaged, got[:6], want[:6])
+        if all(p[1] >= 0 for p in per) and len(fc) != sum(p[1] for p in per):
+            return 'len(FanoutCache) = %d, the shards sum to %d' % (len(fc), sum(p[1] for p in per))
+        if fc.volume() != sum(p[2] for p in per):
+            return 'FanoutCache.volume() = %d, the shards sum to %d' % (fc.volume(), sum(p[2] for p in per))
+        if [k for k in fc] != [k for p in per for k in p[3]]:
+            return 'iteration over the FanoutCache is not the shards\' iterations in shard order'
+        if [k for k in reversed(fc)] != [k for p in reversed(per) for k in p[4]]:
+            return 'reversed iteration over the FanoutCache is not the reversed shards in reverse order'
+        fixed = norm(fc.check(fix=True))
+        again = [w for w in norm(fc.check()) if not w.startswith('empty directory')]
+        if again:
+            return 'FanoutCache.check(fix=True) left %r in shards damaged %r' % (again[:4], damaged)
+        # the removal aggregates return the sum over the shards
+        reds = 0
+        for x in dirs:
+            con = __import__('sqlite3').connect(os.path.join(x, 'cache.db'))
+            reds += con.execute("SELECT COUNT(*) FROM Cache WHERE tag = 'red'").fetchone()[0]
+            con.close()
+        total = len(fc)
+        if fc.evict('red') != reds:
+            return 'FanoutCache.evict did not report the number of tagged items in all shards (%d)' % reds
+        if len(fc) != total - reds:
+            return 'FanoutCache.evict did not remove the tagged items of every shard'
+        if fc.clear() != total - reds or len(fc) != 0:
+            return 'FanoutCache.clear did not remove / count the items of every shard'
+        fc.close()
+        return None
+    finally:
+        shutil.rmtree(d, ignore_errors=True)
+
+
 def run(tier, seed, rng, known, replay):
     if replay:
         return base.replay_file(replay, 'C13', ('result', 'state'), acceptor)
@@ -113,6 +186,12 @@ def run(tier, seed, rng, known, replay):
     elif any(o != outs[0] for o in outs[1:]):
         violations.append({'replay': {'property': 'C13', 'kind': 'routing', 'routes': outs}, 'found_input': True,
                            'what': 'the shard of a key depends on the interpreter (hash seed)'})
+    n_agg = 40 if tier == 'quick' else 600
+    for s_ in [rng.getrandbits(40) for _ in range(n_agg)]:
+        v = aggregate_probe(s_)
+        if v and len(violations) < 3:
+            violations.append({'replay': {'property': 'C13', 'kind': 'aggregate-probe', 'probe_seed': s_, 'acceptor': v},
+                               'found_input': True, 'what': v})
     v = probe_d11()
     if v:
         k = base.match_known(known, {'cfg': {}}, None, v)
@@ -123,8 +202,8 @@ def run(tier, seed, rng, known, replay):
     return {
         'evaluations': sum(len(h['ops']) for h in hists) + 4 * len(ROUTE_KEYS), 'distinct_nontrivial': distinct,
         'rule': 'seeded call histories over the C03 alphabet on FanoutCache with shards in {1,2,3,8,13}; routing of %d boundary keys per shard count '
-                'against the model and across 4 interpreters with different PYTHONHASHSEED; distinct = distinct (method, result) pairs' % len(ROUTE_KEYS),
+                'against the model and across 4 interpreters with different PYTHONHASHSEED; aggregates (check, len, volume, iteration, evict, clear, the divided size limit) of caches with damaged shards against the shards one by one; distinct = distinct (method, result) pairs' % len(ROUTE_KEYS),
         'samples': [base.sample(hists[0], r['impl_out'][0]), base.sample(hists[-1], r['impl_out'][-1])], 'traces': len(hists),
-        'dist': dict(dist, histories=len(hists), divergent=r['divergent'], interpreters=4),
+        'dist': dict(dist, histories=len(hists), divergent=r['divergent'], interpreters=4, aggregate_probes=n_agg),
         'violations': violations, 'known': known_hits,
     }
